@@ -108,6 +108,8 @@ def pred_order_ok(G):
 
 def build_nx(spec):
     G = nx.DiGraph()
+    if spec.get("id") is not None:
+        G.graph["id"] = spec["id"]          # user metadata: many different graphs of one run carry the same id
     G.add_nodes_from(spec["nodes"])
     for u, v, attrs in spec["edges"]:
         G.add_edge(u, v, **attrs)
@@ -154,7 +156,7 @@ def rand_digraph(rng, max_nodes=7):
         es.append([u, v, attrs])
     starts = [v for v in nodes if rng.random() < 0.2]
     ends = [v for v in nodes if rng.random() < 0.2]
-    return {"nodes": list(nodes), "edges": es, "starts": starts, "ends": ends}
+    return {"nodes": list(nodes), "edges": es, "starts": starts, "ends": ends, "id": rng.choice(["g", "g", "sample", None])}
 
 
 def rand_queries(rng, nodes, edges, n):
